@@ -96,11 +96,24 @@ def decoskip_context(case, rec, at):
     return ':decorator-skipped-test-never-started' if skips else ''
 
 
-def run_cases(chk, fam, cases, label=''):
+def run_cases(chk, fam, cases, label='', peers=None):
     """execute + validate; every clause of family `fam` that TLC reports
-    becomes a violation (or a known finding)."""
+    becomes a violation (or a known finding).  peers: {case id: [ids of the
+    runs of the same world in other execution modes]} -- their reports are
+    attached so that TLC compares the modes."""
     res = core.execute(cases)
     recs = [core.trace_record(c, res[c['id']]) for c in cases]
+    if peers:
+        by_id = {r['id']: r for r in recs}
+        for r in recs:
+            r['rep']['peers'] = [
+                {k: by_id[p]['rep'][k] for k in
+                 ('hasTotal', 'total', 'failed', 'crashed')}
+                | {'failBag': sorted(by_id[p]['rep']['failIds']),
+                   'errBag': sorted(by_id[p]['rep']['errIds']),
+                   'hasLists': by_id[p]['o']['verbose'] > 0,
+                   'id': p}
+                for p in peers.get(r['id'], ()) if p != r['id'] and p in by_id]
     verdicts, tres = core.validate(recs)
     if tres is None:
         return res, recs, verdicts
@@ -130,8 +143,10 @@ def run_cases(chk, fam, cases, label=''):
 def needs_cli(world, o):
     if o.get('j', 1) > 1:
         return True
-    return any(l.get('tearDown') == 'notimpl' or isinstance(l.get('setUp'), dict)
-               or isinstance(l.get('tearDown'), dict)
+    def special(b):
+        return isinstance(b, dict) and 'exc' not in b
+    return any(l.get('tearDown') == 'notimpl' or special(l.get('setUp'))
+               or special(l.get('tearDown'))
                for l in world['layers'].values())
 
 
